@@ -122,7 +122,7 @@ fn gen_case(seed: u64, index: u64, tier: Tier) -> Case {
 			kind: rng.below(3) as u8,
 			steps: (0..rng.urange(4, 14)).map(|_| rng.below(4) as u8).collect(),
 			callbacks: rng.urange(2, 7),
-			switch_prob: *rng.pick(&[0.1, 0.3, 0.6, 0.9]),
+			switch_prob: *rng.pick(&[0.03, 0.1, 0.3, 0.6, 0.9]),
 		},
 	};
 	Case { seed, stream }
